@@ -286,6 +286,10 @@ def run_c04(ctx, rng, job):
             name = kname
             if rng.random() < 0.5:
                 prov = kprov
+            elif rng.random() < 0.6:
+                # same required key and name under another provided interface: the order in which related
+                # and unrelated provided interfaces were first registered must not matter
+                req = kreq
         if rng.random() < 0.12 and w.adapters[ri]:
             k = rng.choice(list(w.adapters[ri]))
             w.unregister(ri, *k)
@@ -377,7 +381,18 @@ def run_c07(ctx, rng, job):
             lreq = tuple(rng.choice(w.lookspecs()) for _ in range(ar))
             lprov = rng.choice(w.P + [None, Interface])
             exp = w.m_subscriptions(li, lreq, lprov)
+            if lprov is not None and rng.random() < 0.3:
+                # the other multi-result entry point for the very same key first (separate caches)
+                la = w.regs[li].lookupAll(lreq, lprov)
+                ctx.ev()
+                if not all(isinstance(x, tuple) and len(x) == 2 and isinstance(x[0], str) for x in la):
+                    ctx.violation('lookupAll-result-shape', {'registry': li, 'got': repr(la)[:200]})
             got = w.regs[li].subscriptions(lreq, lprov)
+            if lprov is not None and rng.random() < 0.2:
+                la = w.regs[li].lookupAll(lreq, lprov)
+                ctx.ev()
+                if not all(isinstance(x, tuple) and len(x) == 2 and isinstance(x[0], str) for x in la):
+                    ctx.violation('lookupAll-result-shape', {'registry': li, 'got': repr(la)[:200]})
             ctx.count('subscription_queries')
             where = {'registry': li, 'required': nm(lreq), 'provided': nm(lprov)}
             seq = w.check_subscriptions(got, exp, where)
